@@ -215,7 +215,7 @@ func (c *CPU6502) jmpIndirect65C02() (uint64, bool) {
 	addr := c.getAddrIndirect()
 	c.PC = addr
 
-	return 5, false
+	return 6, false
 }
 
 func (c *CPU6502) jmpIndexXIndirect() (uint64, bool) {
